@@ -36,11 +36,15 @@ def enumerate_programs(cfg_text, unfixed=None, timeout=3600, simulate=None,
 
 def _observe_chunk(chunk):
     from .observe import observe
-    return [observe(p) for p in chunk]
+    return [observe(p, touch=t) for p, t in chunk]
 
 
-def observe_all(progs, chunk=100, timeout=1800):
-    chunks = [progs[i:i + chunk] for i in range(0, len(progs), chunk)]
+def observe_all(progs, chunk=100, timeout=1800, touch=None):
+    """touch[i]: build program i in touch mode - keys(), len() and indexable of
+    every intermediate dataset are read before the next stage is put on top
+    (memos of one object must not leak into the datasets derived from it)."""
+    jobs = list(zip(progs, touch if touch is not None else [False] * len(progs)))
+    chunks = [jobs[i:i + chunk] for i in range(0, len(jobs), chunk)]
     if not chunks:
         return []
     with mp.get_context('fork').Pool(common.NCPU) as pool:
